@@ -22,7 +22,9 @@ pub fn parse(raw: &[u8]) -> Result<IndexMap<String, Vec<u8>>> {
     // Validate magic number.
     let magic = cursor.read_u32::<BigEndian>()?;
     if magic != MAGIC {
-        todo!()
+        return Err(crate::ArchiveError::OtherError(
+            "Invalid magic number: not a pack archive.".to_string(),
+        ));
     }
 
     // Retrieve the file count.
